@@ -1,5 +1,6 @@
 SPECIFICATION TraceSpec
 CONSTANTS Names <- TNames
+ PlantNames <- TNames
  Keywords <- KW
  Reserved <- RES
  Deviations <- AsBuilt
